@@ -55,6 +55,79 @@ Encode(f) ==
                                \o B32(IF f.has_f THEN f.nfid ELSE <<0, 0>>) \o B32(IF f.has_p THEN f.npid ELSE <<0, 0>>)
       [] f.t = "ACKF"    -> << 12 >> \o B32(f.fbase) \o B32(f.pbase) \o B16(Len(f.groups)) \o EncGroups(f.groups)
 
+(* ---------------------------------------------------------------------------------------------
+   The other direction: Decode(b) is the frame a receiver must obtain from the byte sequence b (a frame
+   WITHOUT its CRC; the CRC comparison is in MonCodec), or Rejected when b is not exactly one well-formed
+   frame: unknown type byte, wrong length for a fixed-size type, an error code outside 0..2, a datagram or
+   ack-group count that does not match the bytes present (missing or trailing bytes).  Bits the encoding does
+   not use (the SYN padding, the upper bits of a sync mode byte, the upper nibble of a 20-bit id's first byte
+   in the small and large encodings) are ignored by the receiver, so Decode is a left inverse of Encode but
+   not injective.  Transcribed from the wire format, not from the parser: src/frame/serial/mod.rs read_*. *)
+Rejected == [t |-> "REJECT"]
+U16(a, c) == a * 256 + c
+P32(b, i) == << U16(b[i], b[i + 1]), U16(b[i + 2], b[i + 3]) >>
+
+(* one datagram starting at index i of b: [ok, dg, next] *)
+DecDatagram(b, i) ==
+    LET rem == Len(b) - i + 1 IN
+    IF rem < 6 THEN [ok |-> FALSE]
+    ELSE IF b[i] < 128 THEN                                     \* micro: 6-byte header
+        LET n == b[i] % 64 IN
+        IF rem < 6 + n THEN [ok |-> FALSE]
+        ELSE [ok |-> TRUE, next |-> i + 6 + n,
+              dg |-> [seq |-> << b[i + 1] \div 16, U16(b[i + 2], b[i + 3]) >>,
+                      ch |-> 32 * Bit(b[i + 4], 7) + 16 * Bit(b[i], 6) + (b[i + 1] % 16),
+                      wpl |-> b[i + 4] % 128, cpl |-> b[i + 5], frag |-> 0, last |-> 0,
+                      data |-> SubSeq(b, i + 6, i + 5 + n)]]
+    ELSE IF b[i] < 192 THEN                                     \* small: 9-byte header
+        LET n == b[i + 1] IN
+        IF rem < 9 + n THEN [ok |-> FALSE]
+        ELSE [ok |-> TRUE, next |-> i + 9 + n,
+              dg |-> [seq |-> << b[i + 2] % 16, U16(b[i + 3], b[i + 4]) >>, ch |-> b[i] % 64,
+                      wpl |-> U16(b[i + 5], b[i + 6]), cpl |-> U16(b[i + 7], b[i + 8]), frag |-> 0, last |-> 0,
+                      data |-> SubSeq(b, i + 9, i + 8 + n)]]
+    ELSE                                                        \* large: 14-byte header
+        LET n == U16(b[i + 1], b[i + 2]) IN
+        IF rem < 14 + n THEN [ok |-> FALSE]
+        ELSE [ok |-> TRUE, next |-> i + 14 + n,
+              dg |-> [seq |-> << b[i + 3] % 16, U16(b[i + 4], b[i + 5]) >>, ch |-> b[i] % 64,
+                      wpl |-> U16(b[i + 6], b[i + 7]), cpl |-> U16(b[i + 8], b[i + 9]),
+                      frag |-> U16(b[i + 10], b[i + 11]), last |-> U16(b[i + 12], b[i + 13]),
+                      data |-> SubSeq(b, i + 14, i + 13 + n)]]
+
+(* k datagrams from index i, then nothing: the sequence of datagrams, or <<"bad">> *)
+RECURSIVE DecDatagrams(_, _, _, _)
+DecDatagrams(b, i, k, acc) ==
+    IF k = 0 THEN (IF i = Len(b) + 1 THEN [ok |-> TRUE, dgs |-> acc] ELSE [ok |-> FALSE])
+    ELSE LET d == DecDatagram(b, i) IN
+         IF ~d.ok THEN [ok |-> FALSE] ELSE DecDatagrams(b, d.next, k - 1, Append(acc, d.dg))
+
+DecGroups(b, k) == [j \in 1..k |-> [base |-> P32(b, 12 + 9 * (j - 1)), bits |-> P32(b, 16 + 9 * (j - 1)), nonce |-> b[20 + 9 * (j - 1)] # 0]]
+
+Decode(b) ==
+    IF Len(b) < 1 THEN Rejected ELSE
+    LET n == Len(b) t == b[1] IN
+    CASE t = 0 -> IF n # SynLen THEN Rejected
+                  ELSE [t |-> "SYN", version |-> b[2], nonce |-> P32(b, 3), rate |-> P32(b, 7), psize |-> P32(b, 11), alloc |-> P32(b, 15)]
+      [] t = 1 -> IF n # 21 THEN Rejected
+                  ELSE [t |-> "SYNACK", nonce_ack |-> P32(b, 2), nonce |-> P32(b, 6), rate |-> P32(b, 10), psize |-> P32(b, 14), alloc |-> P32(b, 18)]
+      [] t = 2 -> IF n # 5 THEN Rejected ELSE [t |-> "ACK", nonce_ack |-> P32(b, 2)]
+      [] t = 3 -> IF n # 6 \/ b[6] > 2 THEN Rejected
+                  ELSE [t |-> "ERR", nonce_ack |-> P32(b, 2), err |-> CASE b[6] = 0 -> "Version" [] b[6] = 1 -> "Config" [] b[6] = 2 -> "ServerFull"]
+      [] t = 4 -> IF n # 1 THEN Rejected ELSE [t |-> "DISC"]
+      [] t = 5 -> IF n # 1 THEN Rejected ELSE [t |-> "DISCACK"]
+      [] t = 10 -> IF n < 6 THEN Rejected
+                   ELSE LET r == DecDatagrams(b, 7, b[6] % 128, <<>>) IN
+                        IF ~r.ok THEN Rejected ELSE [t |-> "DATA", seq |-> P32(b, 2), nonce |-> b[6] >= 128, dgs |-> r.dgs]
+      [] t = 11 -> IF n # 10 THEN Rejected
+                   ELSE LET hf == Bit(b[2], 0) = 1  hp == Bit(b[2], 1) = 1 IN
+                        [t |-> "SYNC", has_f |-> hf, has_p |-> hp, nfid |-> IF hf THEN P32(b, 3) ELSE <<0, 0>>, npid |-> IF hp THEN P32(b, 7) ELSE <<0, 0>>]
+      [] t = 12 -> IF n < 11 THEN Rejected
+                   ELSE LET k == U16(b[10], b[11]) IN
+                        IF n # 11 + 9 * k THEN Rejected
+                        ELSE [t |-> "ACKF", fbase |-> P32(b, 2), pbase |-> P32(b, 6), groups |-> DecGroups(b, k)]
+      [] OTHER -> Rejected
+
 (* Length of a well-formed frame on the wire (with CRC), for the types of fixed size. *)
 WireLen(t) == CASE t = "SYN" -> 1472 [] t = "SYNACK" -> 25 [] t = "ACK" -> 9 [] t = "ERR" -> 10
                 [] t = "DISC" -> 5 [] t = "DISCACK" -> 5 [] t = "SYNC" -> 14
